@@ -21,6 +21,12 @@ import (
 // with R and N coming from the public key. The exponents are hashed if their length
 // exceeds the maximum message length from the public key.
 func RepresentToPublicKey(pk *gabikeys.PublicKey, exps []*big.Int) (*big.Int, error) {
+	for _, exp := range exps {
+		// The hash of an oversized exponent is over its magnitude only: -x would stand for x.
+		if exp.Sign() < 0 && exp.BitLen() > int(pk.Params.Lm) {
+			return nil, errors.New("negative exponent exceeds the message length")
+		}
+	}
 	return common.RepresentToBases(pk.R, exps, pk.N, pk.Params.Lm), nil
 }
 
